@@ -67,6 +67,7 @@ def cipher_desc(prog, qual):
             info["padcall"] = x[1][1].split(".")[-1]
             info["block"] = x[2][1] if len(x[2]) > 1 else None
             info["pad_arg"] = x[2][0]
+            info["style"] = dict(x[3]).get("style", x[2][2] if len(x[2]) > 2 else ("const", "pkcs7"))
     return info
 
 
@@ -169,6 +170,7 @@ def run(ctx):
     ctx.ob("C02.c", SEC, pair, "encrypt_aes / decrypt_aes: same key (ENC_KEY), same mode (ECB)", func=SEC, file=file, construct="AES.new(...)",
            fail=f"encrypt/decrypt disagree on key or mode: {show(e.get('key'))[:40]}/{show(e.get('mode'))} vs {show(d.get('key'))[:40]}/{show(d.get('mode'))}")
     order = e.get("padcall") == "pad" and d.get("padcall") == "unpad" and e.get("block") == d.get("block") == ("const", 16) \
+        and e.get("style") == d.get("style") == ("const", "pkcs7") \
         and e.get("op_arg") is not None and call_is(e["op_arg"], "Crypto.Util.Padding.pad") \
         and d.get("pad_arg") is not None and meth_is(d["pad_arg"], "decrypt")
     ctx.ob("C02.c", SEC, order, "pad(.,16) then encrypt / decrypt then unpad(.,16)", func=SEC, file=file, construct="Padding.pad / unpad",
@@ -272,6 +274,8 @@ def run(ctx):
                     continue
                 if (l[0] == "slice" and strip(l[1]) == ("param", dp) and is_const(r)) or (r[0] == "slice" and strip(r[1]) == ("param", dp) and is_const(l)):
                     sl, cv = (l, r) if l[0] == "slice" else (r, l)
+                    if any(b is not None and not (is_const(b) and isinstance(b[1], int)) for b in (sl[2], sl[3])):
+                        raise AnalysisError(f"{DEC}: header comparison `{show(a)[:100]}` uses non-constant slice bounds")
                     lo = sl[2][1] if sl[2] is not None else 0
                     hi = sl[3][1] if sl[3] is not None else None
                     emitted = bytes(x[1] for x in (hb or [])[lo:hi]) if hb and all(x[0] == "c" for x in hb[lo:hi]) else None
